@@ -22,6 +22,8 @@ inductive H2Err
   | rst                      -- RST_STREAM from the peer
   | closedBody               -- errClosedResponseBody (caller closed the body)
   | pipeWrite                -- write on closed / uninitialised pipe (DATA nobody will read)
+  | goAwayRetry              -- errClientConnGotGoAway: stream above the GOAWAY's last-stream-id (retryable)
+  | goAwayErr                -- "Transport received GOAWAY from server ErrCode:…": stream 1, GOAWAY with an error code
 deriving Repr, BEq, DecidableEq
 
 /-! ### pipe -/
